@@ -211,12 +211,12 @@ def h_cdda(f0: int, df: int, tail: int, last: int, cut: int, k: int) -> int:
 # ------------------------------------------------------------------ whole AKAI image cut at a solver-chosen position (decision tree; concrete per path)
 def h_image(sector: int, off_i: int, order: int) -> int:
     """
-    pre: 0 <= sector <= 13 and 0 <= off_i <= 7 and 0 <= order <= 1
+    pre: 0 <= sector <= 23 and 0 <= off_i <= 9 and 0 <= order <= 1
     post: _ == 1
     """
     CNT[0] += 1
     from vf.util import conc, untraced
-    sector, off_i, order = conc(sector, 0, 13), conc(off_i, 0, 7), conc(order, 0, 1)
+    sector, off_i, order = conc(sector, 0, 23), conc(off_i, 0, 9), conc(order, 0, 1)
     with untraced():
         import io
         import struct
@@ -233,10 +233,15 @@ def h_image(sector: int, off_i: int, order: int) -> int:
         lay = {}
         # a second volume behind the first one's files: its directory sector lies AFTER them, so that cuts fall between the data of volume 1
         # and the directory of volume 2 (seed C15c)
-        files2 = [("DDD", 0x73, sf("DDD", words(200, 5)), None)]
+        # ZZZ is listed FIRST in volume 2 but stored behind everything else of the partition: a cut can take ZZZ's header away while DDD, listed
+        # after it, lies entirely before the cut (seed C15d)
+        files2 = [("ZZZ", 0x73, sf("ZZZ", words(100, 7)), None, "late"), ("DDD", 0x73, sf("DDD", words(200, 5)), None)]
         img = akaiw.partition([("VOL", files, None), ("VOL2", files2, None)], size_sectors=16, layout=lay)
+        # a second partition (sectors 16..23 of the image): cuts inside ITS header, volume table and SAT must leave partition A's files alone
+        layb = {}
+        img += akaiw.partition([("VB", [("EEE", 0x73, sf("EEE", words(100, 6)), None)], None)], size_sectors=8, layout=layb)
         full = dict(c16._do(actions.determine_image_type(io.BufferedReader(io.BytesIO(img))), ("export", None))[1])
-        cut = sector * 8192 + (0, 1, 50, 139, 140, 141, 4096, 8191)[off_i]
+        cut = sector * 8192 + (0, 1, 50, 139, 140, 141, 215, 1000, 4096, 8191)[off_i]
         try:
             image = actions.determine_image_type(io.BufferedReader(io.BytesIO(img[:cut])))
             got = dict(c16._do(image, ("export", None))[1])
@@ -245,8 +250,9 @@ def h_image(sector: int, off_i: int, order: int) -> int:
         # ... but a file whose directory entry, header and data sectors all lie before the cut must have been exported complete
         end = lambda *fn: 1 + max(s for f in fn for s in lay[("VOL", f)])                     # first sector after the files' data (from the writer's layout)
         extent = {"out/A/VOL/AAA.wav": end("AAA"), "out/A/VOL/BBB.wav": end("BBB"), "out/A/VOL/CCC.wav": end("CCC -L", "CCC -R"),
-                  "out/A/VOL2/DDD.wav": 1 + max(lay[("VOL2", "DDD")])}
-        if sorted(extent.values()) != [7, 8, 10, 13] or lay[("VOL2", None)] != [10]:
+                  "out/A/VOL2/DDD.wav": 1 + max(lay[("VOL2", "DDD")]), "out/A/VOL2/ZZZ.wav": 1 + max(lay[("VOL2", "ZZZ")]),
+                  "out/B/VB/EEE.wav": 16 + 1 + max(layb[("VB", "EEE")])}
+        if sorted(extent.values()) != [7, 8, 10, 13, 14, 22] or lay[("VOL2", None)] != [10] or len(full) != 6:
             raise AssertionError("harness: layout of the written image is not the one the cut positions were chosen for")
         for path, end_sector in extent.items():
             if cut >= end_sector * 8192:
